@@ -180,8 +180,9 @@ impl Monitor for C15 {
             let name = IMPLS[imp];
             let fam = FAMILY[imp];
             let mut seen: Vec<bool> = vec![];
-            for cri in 0..4usize {
-                for &freq in FREQS.iter() {
+            let (ncr, nfreq) = if col.tier == Tier::Sanitizer { (1, 1) } else { (4, 2) };
+            for cri in 0..ncr {
+                for &freq in FREQS[..nfreq].iter() {
                     let out = if imp == 0 {
                         match trap(|| BaseBandModulationParams::new(SFS[sfi], BWS[bwi], CRS[cri]).ldro) {
                             Ok(l) => Outcome::Decided(l as u8, None, None),
